@@ -184,6 +184,9 @@ func (p *hsPeer) faultNow() bool {
 	if p.sc.FSide != p.side || p.io != p.sc.FStep {
 		return false
 	}
+	if p.sc.FKind == "nobuf" || p.sc.FKind == "badbuf" {
+		return false // this client does not stop; what is wrong with it is its buffer (createMemory)
+	}
 	if p.sc.FKind == "late" {
 		if !p.lateUsed {
 			p.lateUsed = true
@@ -442,8 +445,15 @@ func (p *hsPeer) createMemory() error {
 	}
 	createQueueFromBytes(p.qmem[:qsize/2], hsQueueCap)
 	createQueueFromBytes(p.qmem[qsize/2:], hsQueueCap)
-	if _, err = createBufferManager([]*SizePercentPair{{Size: 4096, Percent: 100}}, p.bpath, p.bmem, 0); err != nil {
-		return err
+	bad := p.sc.FSide == "c" && (p.sc.FKind == "nobuf" || p.sc.FKind == "badbuf")
+	if !bad || p.sc.FKind == "nobuf" {
+		if _, err = createBufferManager([]*SizePercentPair{{Size: 4096, Percent: 100}}, p.bpath, p.bmem, 0); err != nil {
+			return err
+		}
+	} // badbuf: all zero, no buffer manager in it
+	if bad && p.sc.FKind == "nobuf" && p.sc.Map == "file" {
+		// what a dying / tearing-down client of the library leaves for a moment: buffer file gone, queue file there
+		os.Remove(p.bpath)
 	}
 	if p.sc.Map == "file" { // descriptors of files are not needed once mapped
 		hsunix.Close(qfd)
@@ -825,6 +835,7 @@ func hsRun(sc hsScenario, dir string) (out hsOut) {
 		if err != nil {
 			end.Res, end.Err = "err", err.Error()
 			conn.Close() // what a caller does with its connection after a failed handshake
+			runtime.GC() // the duplicated descriptor is closed by its finaliser: let the peer see the end soon
 			return
 		}
 		end.Res = "ok"
